@@ -328,6 +328,153 @@ fn cmd_gen(args: &[String]) {
     eprintln!("vdriver gen: {n} cases");
 }
 
+/// One observation record for a finished call (no projection; C18 compares results only).
+fn obs_min(id: &str, oc: &CallOutcome) -> Value {
+    let mut obs = Map::new();
+    obs.insert("ev".into(), json!("obs"));
+    obs.insert("id".into(), json!(id));
+    obs.insert("ret".into(), oc.ret.clone());
+    obs.insert("work".into(), json!(oc.work.to_vec()));
+    obs.insert("micros".into(), json!(oc.micros as u64));
+    obs.insert("oracle".into(), json!({"parse": {"ok": true}}));
+    if let Some(text) = &oc.text {
+        obs.insert("text_sha".into(), json!(project::hash_bytes(text.as_bytes())));
+        obs.insert("text_len".into(), json!(text.len()));
+    }
+    Value::Object(obs)
+}
+
+fn case_src(case: &Case) -> String {
+    match (&case.wgsl, &case.s) {
+        (Some(w), _) => w.clone(),
+        (None, Some(s)) => concretise::concretise(s),
+        _ => String::new(),
+    }
+}
+
+fn case_event(case: &Case, id: &str, src: &str, mode: &str) -> Value {
+    json!({"ev": "case", "id": id, "family": format!("{}-{}", case.family, mode), "has_s": false,
+           "opts": serde_json::to_value(&case.opts).unwrap(),
+           "src_sha": project::hash_bytes(src.as_bytes()), "src_len": src.len()})
+}
+
+/// vdriver sched <groups.ndjson> <trace.ndjson>
+/// each line: {"id":..., "cases":[case, case, ...], "schedule":[1,2,1,...]}  (thread numbers from 1;
+/// an empty schedule = free-running threads). Threads stop at every hook sync point and continue only
+/// when the schedule hands them the turn, so the recorded interleaving is the exported one.
+fn cmd_sched(args: &[String]) {
+    use std::sync::{Arc, Condvar, Mutex};
+    #[derive(serde::Deserialize)]
+    struct Group {
+        id: String,
+        cases: Vec<Case>,
+        #[serde(default)]
+        schedule: Vec<usize>,
+    }
+    struct Turn {
+        pos: usize,
+        done: Vec<bool>,
+        order: Vec<usize>,
+    }
+    let input = std::io::BufReader::new(std::fs::File::open(&args[0]).expect("groups file"));
+    let mut out = BufWriter::new(std::fs::File::create(&args[1]).expect("trace file"));
+    std::panic::set_hook(Box::new(|_| {}));
+    for line in input.lines() {
+        let line = line.unwrap();
+        if line.trim().is_empty() {
+            continue;
+        }
+        let g: Group = serde_json::from_str(&line).expect("group");
+        let n = g.cases.len();
+        let sched = Arc::new(g.schedule.clone());
+        let state = Arc::new((Mutex::new(Turn { pos: 0, done: vec![false; n + 1], order: vec![] }), Condvar::new()));
+        let mut handles = vec![];
+        for (ti, case) in g.cases.iter().cloned().enumerate() {
+            let t = ti + 1;
+            let sched = sched.clone();
+            let state = state.clone();
+            handles.push(std::thread::spawn(move || {
+                let src = case_src(&case);
+                // wait until the schedule gives this thread the turn (skipping turns of finished threads)
+                let wait_turn = {
+                    let sched = sched.clone();
+                    let state = state.clone();
+                    move || {
+                        if sched.is_empty() {
+                            return;
+                        }
+                        let (m, cv) = &*state;
+                        let mut st = m.lock().unwrap();
+                        loop {
+                            while st.pos < sched.len() && st.done[sched[st.pos]] {
+                                st.pos += 1;
+                                cv.notify_all();
+                            }
+                            if st.pos >= sched.len() || sched[st.pos] == t {
+                                return;
+                            }
+                            st = cv.wait_timeout(st, std::time::Duration::from_secs(20)).unwrap().0;
+                        }
+                    }
+                };
+                let pass_turn = {
+                    let sched = sched.clone();
+                    let state = state.clone();
+                    move || {
+                        if sched.is_empty() {
+                            return;
+                        }
+                        let (m, cv) = &*state;
+                        let mut st = m.lock().unwrap();
+                        if st.pos < sched.len() && sched[st.pos] == t {
+                            st.pos += 1;
+                            st.order.push(t);
+                        }
+                        cv.notify_all();
+                    }
+                };
+                wait_turn();
+                let (w2, p2) = (wait_turn.clone(), pass_turn.clone());
+                wgsl_to_wgpu::verif::set_sync(Some(Box::new(move |point: &str| {
+                    if point.starts_with("fmt.") {
+                        return;
+                    }
+                    p2();
+                    w2();
+                })));
+                let oc = call_generator(&src, &case.opts, 0, 50_000_000);
+                wgsl_to_wgpu::verif::set_sync(None);
+                {
+                    let (m, cv) = &*state;
+                    let mut st = m.lock().unwrap();
+                    if st.pos < sched.len() && sched[st.pos] == t {
+                        st.pos += 1;
+                        st.order.push(t);
+                    }
+                    st.done[t] = true;
+                    cv.notify_all();
+                }
+                (case, src, oc)
+            }));
+        }
+        let mut first = true;
+        for (ti, h) in handles.into_iter().enumerate() {
+            let (case, src, oc) = h.join().expect("thread");
+            if first && ti + 1 == n {
+                first = false;
+            }
+            let id = format!("{}-t{}", g.id, ti + 1);
+            writeln!(out, "{}", tlc_safe(case_event(&case, &id, &src, if g.schedule.is_empty() { "threads" } else { "sched" }))).unwrap();
+            writeln!(out, "{}", tlc_safe(obs_min(&id, &oc))).unwrap();
+        }
+        if !g.schedule.is_empty() {
+            let order = state.0.lock().unwrap().order.clone();
+            writeln!(out, "{}", json!({"ev": "sched", "id": g.id, "schedule": g.schedule, "order": order})).unwrap();
+        }
+    }
+    out.flush().unwrap();
+}
+
 fn cmd_concretise(args: &[String]) {
     let input = std::io::BufReader::new(std::fs::File::open(&args[0]).expect("cases file"));
     for line in input.lines() {
@@ -340,7 +487,11 @@ fn cmd_concretise(args: &[String]) {
             .wgsl
             .clone()
             .unwrap_or_else(|| concretise::concretise(case.s.as_ref().unwrap()));
-        println!("// ---- {}\n{}", case.id, src);
+        if args.iter().any(|a| a == "--json") {
+            println!("{}", json!({"id": case.id, "wgsl": src}));
+        } else {
+            println!("// ---- {}\n{}", case.id, src);
+        }
     }
 }
 
@@ -353,6 +504,7 @@ fn main() {
     match args[0].as_str() {
         "gen" => cmd_gen(&args[1..]),
         "concretise" => cmd_concretise(&args[1..]),
+        "sched" => cmd_sched(&args[1..]),
         other => {
             eprintln!("unknown subcommand {other}");
             std::process::exit(2);
